@@ -62,6 +62,7 @@ func init() {
 			{ID: "R03.5", Title: "token consumption discipline: every Next() is justified by a Peek test or its token is checked before success", Floor: 35, Run: ruleR035},
 			{ID: "R03.6", Title: "implicit multiplication bookkeeping only in comfort mode", Floor: 3, Run: ruleR036},
 			{ID: "R03.7", Title: "the parser is purely constructive: grouping never depends on the node kind of an already parsed operand (parentheses are honoured)", Floor: 2, Run: ruleR037},
+			{ID: "R04.8", Title: "input is never silently truncated: the end-of-input mark cannot be forged by a character of the input (see C04)", Floor: 1, Run: ruleR048},
 		},
 	})
 	register(&Property{
@@ -79,6 +80,8 @@ func init() {
 			{ID: "R04.6", Title: "default matchers: the start test implies the continuation predicate (symbolic implication over predicate atoms)", Floor: 2, Run: ruleR046},
 			{ID: "R04.5", Title: "result discipline: (result, nil) or (nil, non-nil error), never (nil, nil)", Floor: 90, Run: ruleR045},
 			{ID: "R04.7", Title: "slicing and indexing of strings on the parsing path is bounded by decode widths or a length test", Floor: 8, Run: ruleR047},
+			{ID: "R04.8", Title: "the end-of-input mark cannot be forged by a character of the input", Floor: 1, Run: ruleR048},
+			{ID: "R03.3", Title: "operator levels are entered in range of the operator table (see C03)", Floor: 3, Run: ruleR033},
 		},
 	})
 	register(&Property{
